@@ -9,6 +9,7 @@ func init() {
 	verifRegister("VerifC01_KCmp", VerifC01_KCmp)
 	verifRegister("VerifC01_ECore", VerifC01_ECore)
 	verifRegister("VerifC01_EArgs", VerifC01_EArgs)
+	verifRegister("VerifC01_KStable", VerifC01_KStable)
 }
 
 var c01Env *lisp.LEnv
@@ -294,5 +295,53 @@ func VerifC01_EArgs() {
 		want = "'(" + sI(v) + want[3:]
 	}
 	vAssert(outcome(rk) == want, "keyword parameters bind by name in any order; unknown keywords, odd keyword lists and wrong arity are errors; want "+want+" got "+outcome(rk))
+	vCover("end")
+}
+
+// stable-sort is a stable sort (docs/lang.md, the builtin's docstring): N records (key idx) with
+// SYMBOLIC keys drawn from {0,1} — every tie pattern of every length up to N — sorted on the key
+// alone, through the less-predicate and through a key-fun: the result is ordered and records with
+// equal keys keep their input order.
+func VerifC01_KStable() {
+	env := c01Setup()
+	n := vParam("N", 13) // Go's sort switches algorithm above 12 elements
+	free := vParam("free", 13)
+	how := vConcInt(vndChoice("how", vParam("hows", 3)))
+	cells := make([]*lisp.LVal, n)
+	for i := 0; i < n; i++ {
+		k := i % 2 // beyond the first `free` records the keys alternate
+		if i < free {
+			k = vndInt("k" + itoa(i))
+			vAssume(k >= 0)
+			vAssume(k <= 1)
+		}
+		cells[i] = lisp.QExpr([]*lisp.LVal{lisp.Int(k), lisp.Int(i)})
+	}
+	var lst *lisp.LVal
+	if how == 2 {
+		lst = lisp.Array(lisp.QExpr([]*lisp.LVal{lisp.Int(n)}), cells)
+	} else {
+		lst = lisp.QExpr(cells)
+	}
+	env.PutGlobal(lisp.Symbol("recs"), lst)
+	src := "(stable-sort (lambda (a b) (< (car a) (car b))) recs)"
+	if how >= 1 {
+		src = "(stable-sort < recs car)"
+	}
+	r := evalSrc(env, src)
+	vObserve("how", how)
+	vAssert(r.Type != lisp.LError, "sorting succeeds: "+outcome(r))
+	out := r.Cells
+	if r.Type == lisp.LArray {
+		out = r.Cells[1].Cells
+	}
+	vAssert(len(out) == n, "same number of records")
+	for i := 1; i < len(out); i++ {
+		ka, kb := out[i-1].Cells[0].Int, out[i].Cells[0].Int
+		vAssert(ka <= kb, "the result is ordered by key")
+		if ka == kb {
+			vAssert(out[i-1].Cells[1].Int < out[i].Cells[1].Int, "records with equal keys keep their input order (the sort is stable)")
+		}
+	}
 	vCover("end")
 }
